@@ -11,7 +11,7 @@ import ast
 
 from .. import regexast
 from ..astutil import (
-    body_raises, call_simple_name, conjuncts, dotted, exc_name, guard_chain, if_raising, names_in, pm, pmall, returns_of, short,
+    body_raises, call_simple_name, conjuncts, const_str, dotted, exc_name, guard_chain, if_raising, names_in, pm, pmall, returns_of, short,
 )
 from ..cfg import ReachingDefs, call_name, cfg_of, calls_at, node_calls, own_exprs
 from ..constraints import summarize
@@ -663,6 +663,36 @@ def rule_id_rule(ctx):
     run.check(ok, R, key(rel, vi.qualname, "prefix-test"), "identifier prefix is not enforced when a prefix is required",
               file=rel, line=vi.node.lineno, function=vi.qualname,
               expected="if required_prefix: if not id_.startswith(required_prefix): raise", found="absent")
+    # type part and UUID part are cut at the same separator: the type of a reference is everything before the FIRST '--'
+    # (utils.get_type_from_id), so the UUID part must be everything after the first '--'; cutting from the right leaves
+    # the text in between unexamined ("identity--junk--<uuid>" would be a valid reference)
+    idp = vi.params[0]
+    LEFT = {"index", "find", "split", "partition"}
+    RIGHT = {"rindex", "rfind", "rsplit", "rpartition"}
+    cuts = [c for c in body_walk(vi.node) if isinstance(c, ast.Call) and isinstance(c.func, ast.Attribute)
+            and c.func.attr in LEFT | RIGHT and isinstance(c.func.value, ast.Name) and c.func.value.id == idp
+            and c.args and const_str(c.args[0]) == "--"]
+    gt = prog.func("stix2.utils::get_type_from_id")
+    cuts_t = [c for c in body_walk(gt.node) if isinstance(c, ast.Call) and isinstance(c.func, ast.Attribute)
+              and c.func.attr in LEFT | RIGHT and c.args and const_str(c.args[0]) == "--"]
+    if not cuts or not cuts_t:
+        raise AnalysisError("_validate_id / get_type_from_id: the cut at '--' was not found")
+
+    def first_sep(c):
+        par = getattr(c, "parent", None)
+        if c.func.attr in ("index", "find", "partition"):
+            return True
+        if c.func.attr == "split":
+            # split('--', 1): the remainder keeps later separators; plain split('--') drops text unless all parts are used
+            return len(c.args) >= 2 and isinstance(c.args[1], ast.Constant) and c.args[1].value == 1 and isinstance(par, ast.Subscript)
+        return False
+    bad = [c for c in cuts + cuts_t if not first_sep(c)]
+    run.check(not bad, R, key(rel, vi.qualname, "uuid-part-is-rest-after-type"),
+              "the type of an identifier is the text before the first '--', but the UUID part is not the whole rest after that "
+              "separator: text between the type and the last '--' is never examined (e.g. 'identity--junk--<uuid>' is accepted "
+              "as a reference to an identity and serialised as given)", file=(bad[0] if bad else cuts[0]) and rel,
+              line=(bad[0].lineno if bad else cuts[0].lineno), function=vi.qualname,
+              expected="both cuts at the first '--' (index/find/partition/split('--', 1))", found=[short(c) for c in bad])
     # result of _check_uuid tested on every path to normal exit
     g = cfg_of(vi)
     assign = [n for n in g.nodes if n.kind == "stmt" and isinstance(n.ast, ast.Assign)
@@ -984,6 +1014,23 @@ def rule_tlp(ctx):
     run.check(bool(else_body) and any(isinstance(s, ast.Raise) for s in else_body), R, key(rel, fi.qualname, "tlp-unknown-colour"),
               "an unknown TLP colour is not refused", file=rel, line=chain.lineno, function=fi.qualname,
               expected="else: raise TLPMarkingDefinitionError", found="absent")
+    # the colour that is compared is the colour that is stored: no normalisation (lower(), strip(), ...) between the
+    # object and the comparison, or 'RED' passes the check and is emitted as given
+    lhs = chain.test.left
+    src_exprs = [lhs]
+    if isinstance(lhs, ast.Name):
+        g_ = cfg_of(fi)
+        rd_ = ReachingDefs(g_, fi.all_param_names())
+        src_exprs = [v for _, v in rd_.reaching(g_.node_of(chain), lhs.id) if isinstance(v, ast.AST)]
+        if not src_exprs:
+            raise AnalysisError("check_tlp_marking: definition of the compared colour not found")
+    bad = [c for e in src_exprs for c in ast.walk(e) if isinstance(c, ast.Call)
+           and not (isinstance(c.func, ast.Attribute) and c.func.attr == "get")]
+    run.check(not bad, R, key(rel, fi.qualname, "compared-colour-is-stored-colour"),
+              "the TLP colour is transformed before it is compared with the four levels, but stored and serialised untransformed: "
+              "a case or spacing variant ('RED', 'Amber ') with the fixed id/created passes strict validation and is emitted, "
+              "although it is none of the four fixed TLP instances", file=rel, line=(bad[0].lineno if bad else chain.lineno),
+              function=fi.qualname, expected="colour read by subscript/get only", found=[short(e) for e in src_exprs])
     # the chain is entered exactly when definition_type == 'tlp'
     gc = guard_chain(chain)
     run.check(len(gc) == 1 and gc[0][1] and "definition_type" in norm(gc[0][0]) and "'tlp'" in norm(gc[0][0]), R,
